@@ -52,8 +52,10 @@ def build_items(tier, seed, wd):
     # option sweep: settings the rules' own unit tests use, all rules at once (harness/configs.py)
     table, inputs = configs.harvest()
     nsweeps = 2 if tier == "quick" else min(12, configs.max_sweeps(table))
+    sweeps = {}
     for k in range(1, nsweeps + 1):
         cfg, rules = configs.sweep_config(table, k)
+        sweeps["sweep%d" % k] = cfg["rule"]
         cfgfile = configs.write_config(cfg, os.path.join(wd, "sweep%d.json" % k))
         if tier == "quick":
             files = sorted(set(f for r in rules for f in inputs.get(r, []) if f.endswith("_test_input.vhd")))
@@ -61,7 +63,27 @@ def build_items(tier, seed, wd):
             files = sorted(set(f for r in rules for f in inputs.get(r, [])))
         for p in files:
             add(p, ["--fix", "-c", cfgfile], "sweep%d" % k)
-    return items
+    # meaning-preserving re-layouts (harness/variants.py): comments at line ends / on own lines, line breaks, case
+    import variants
+
+    base_inputs = [p for p in paths if p.endswith("_test_input.vhd") or "/styles/code_examples/" in p or "/rule_doc/" in p]
+    # comments at every line end / between all lines, case, spacing.  (Line-break and join recipes are used for C05 -
+    # classification - where the property names them; see DESIGN.md section 5 for why the fix family leaves them out.)
+    recipes = ["eol1", "own1", "upper"] if tier == "quick" else ["eol1", "eol3a", "eol3b", "own1", "own3", "upper", "lower", "flip", "widen", "narrow"]
+    for ri, rname in enumerate(recipes):
+        chosen = corpus.stratified_sample(base_inputs, 130 if tier == "quick" else len(base_inputs), seed + 17 * (ri + 1), always=("/styles/code_examples/",))
+        for p in chosen:
+            try:
+                with open(p, encoding="utf-8", newline="") as f:
+                    text = f.read()
+            except (OSError, UnicodeDecodeError):
+                continue
+            v = variants.apply(rname, text)
+            if v is None:
+                continue
+            tid += 1
+            items.append({"tid": tid, "text": v, "name": corpus.rel(p) + "#" + rname, "args": ["--fix"], "tag": "variant:" + rname})
+    return items, sweeps
 
 
 def collect(tier):
@@ -99,7 +121,7 @@ def _collect(tier, cd):
     t0 = time.time()
     seed = common.seed()
     wd = orchestrate.workdir("fixfam_" + tier)
-    items = build_items(tier, seed, wd)
+    items, sweeps = build_items(tier, seed, wd)
     design = run_design(tier)
     t1 = time.time()
     outs = orchestrate.run_shards(items, wd, shards=32, probe=True, reparse=True, rounds=(2 if tier == "quick" else 4))  # per item: only items tagged "default" repeat
@@ -151,7 +173,12 @@ def _collect(tier, cd):
                 all_findings.append({"property": "B", "clause": "B_Machinery", "rule": "", "input": run.get("file"), "config": "", "event": "", "l": 0, "tid": tid,
                                      "detail": {"tb": run.get("tb", "")[-800:]}})
         for tid, l, clause in res.verdicts:
-            all_findings.append(F.describe(runs[tid], l, clause, S))
+            f = F.describe(runs[tid], l, clause, S)
+            # under an option sweep the configuration that matters is the rule's own setting
+            st = sweeps.get(f["config"], {}).get(f["rule"])
+            if st is not None:
+                f["config"] = f["config"] + " " + " ".join("%s=%s" % (k, json.dumps(v)) for k, v in sorted(st.items()) if k != "disable")
+            all_findings.append(f)
     stats["rules_fixing"] = sorted(stats["rules_fixing"])
     stats["wall"] = {"design": round(t1 - t0, 1), "trace": round(t2 - t1, 1), "tlc": round(t3 - t2, 1)}
     shutil.rmtree(wd, ignore_errors=True)
